@@ -1091,6 +1091,278 @@ def check_joins(ctx, rng, rounds, stats, hist):
 
 
 
+# ------------------------------------------------------------------ gates: visibility, type-arg arity, conformance, bounds
+
+def gate_verdict(ans, module):
+    """'accept' | 'reject' | other (what went wrong)."""
+    if ans.get("check") == "done" and not ans["errors"] and ans.get("compile") == "ok":
+        return "accept"
+    if judge_mutant(ans, module) is None:
+        return "reject"
+    return "odd: " + str(judge_mutant(ans, module))
+
+
+def vis_cases(rng):
+    """Visibility: (label, model line, program, module holding the access)."""
+    out = []
+    TGT = 5
+    for cpriv in (0, 1):
+        for kind in ("method", "function", "field"):
+            for pub in (1, 0):
+                for loc in ("same-class", "sibling-class", "same-named-class-other-module", "other-module"):
+                    if kind == "function" and loc == "same-named-class-other-module":
+                        continue      # `Tgt.f()` there denotes the local class
+                    member = {("method", 1): "pubM", ("method", 0): "privM", ("function", 1): "pubS",
+                              ("function", 0): "privS", ("field", 1): "pubF", ("field", 0): "privF"}[(kind, pub)]
+                    same_mod = loc in ("same-class", "sibling-class")
+                    if kind == "function":
+                        access = f"Tgt.{member}()"
+                    elif loc == "same-class":
+                        access = f"this.{member}" + ("()" if kind == "method" else "")
+                    else:
+                        access = f"Factory.mk().{member}" + ("()" if kind == "method" else "")
+                    selfuse = f"  method selfUse(): int = {access}\n" if loc == "same-class" else ""
+                    sib = f"class Sib {{\n  function use(): int = {access}\n}}\n" if loc == "sibling-class" else ""
+                    lib = (("private " if cpriv else "") + "class Tgt(val pubF: int, private val privF: int) {\n"
+                           "  function mk(): Tgt = Tgt.init(1, 2)\n  method pubM(): int = 1\n  private method privM(): int = 2\n"
+                           "  function pubS(): int = 3\n  private function privS(): int = 4\n" + selfuse + "}\n"
+                           "class Factory {\n  function mk(): Tgt = Tgt.mk()\n}\n" + sib)
+                    imports = "Factory"
+                    model = None
+                    if not same_mod and kind == "function":
+                        imports = "Factory, Tgt"
+                        if cpriv:
+                            model = "imp 1"       # the import itself is the gate
+                    user = "Tgt" if loc == "same-named-class-other-module" else "User"
+                    main = f"import {{ {imports} }} from lib.V;\n"
+                    if not same_mod:
+                        main += f"class {user} {{\n  function use(): int = {access}\n}}\n"
+                    main += "class Main {\n  function main(): unit = Process.println(\"m\")\n}\n"
+                    cur_mod, cur_class = (1, TGT if loc == "same-class" else 6) if same_mod else (2, TGT if user == "Tgt" else 8)
+                    if model is None:
+                        model = f"vis {'field' if kind == 'field' else 'member'} {cur_mod} {cur_class} 1 {TGT} {cpriv} {pub}"
+                    out.append((f"vis/{'private-class' if cpriv else 'public-class'}/{kind}/{'public' if pub else 'private'}/{loc}",
+                                model, {"lib.V": lib, "Main": main}, "lib.V" if same_mod else "Main"))
+    # imports of public / private / absent toplevels
+    for e, name in (("0", "Factory"), ("1", "Hid"), ("-", "Nope9")):
+        lib = "class Factory {\n  function mk(): int = 1\n}\nprivate class Hid {\n  function mk(): int = 1\n}\n"
+        main = f"import {{ {name} }} from lib.V;\nclass Main {{\n  function main(): unit = Process.println(\"m\")\n}}\n"
+        out.append((f"imp/{name}", f"imp {e}", {"lib.V": lib, "Main": main}, "Main"))
+    return out
+
+
+TYA_DECLS = ("class P(val v: int) {\n  method g(): int = this.v\n}\n"
+             "class Opt<T>(None, Some(T)) {\n  method k(): int = 0\n}\n"
+             "class Pr<A, B>(val a: A, val b: B) {\n  method k(): int = 0\n}\n")
+TYA_TABLE = "0.1=0,1.2=0,1.3=1,1.4=2"
+
+
+def tya_type(rng, d, corrupt):
+    """(source text, model type string, number of corrupted nodes). corrupt: probability/100 per node."""
+    k = rng.below(9 if d > 0 else 4)
+    if k == 0:
+        return "int", "i", 0
+    if k == 1:
+        return "bool", "b", 0
+    if k in (2, 3, 4, 5, 6):
+        name, mid, ar = rng.pick([("Str", "0,1", 0), ("P", "1,2", 0), ("Opt", "1,3", 1), ("Pr", "1,4", 2)]) if d > 0 \
+            else rng.pick([("Str", "0,1", 0), ("P", "1,2", 0)])
+        n, bad = ar, 0
+        if rng.chance(corrupt, 100):
+            n = rng.pick([x for x in (0, 1, 2, 3) if x != ar]); bad = 1
+        subs = [tya_type(rng, d - 1, corrupt) for _ in range(n)]
+        txt = name + ("<" + ", ".join(x[0] for x in subs) + ">" if subs else "")
+        return txt, f"n0,{mid}(" + "".join(x[1] for x in subs) + ")", bad + sum(x[2] for x in subs)
+    n = rng.below(3)
+    args = [tya_type(rng, d - 1, corrupt) for _ in range(n)]
+    ret = tya_type(rng, d - 1, corrupt)
+    return "(" + ", ".join(a[0] for a in args) + ") -> " + ret[0], "f(" + "".join(a[1] for a in args) + ")" + ret[1], \
+        sum(a[2] for a in args) + ret[2]
+
+
+def tya_cases(rng, n):
+    out = []
+    for i in range(n):
+        txt, mty, bad = tya_type(rng, 3, 0 if i % 3 == 0 else 18)
+        place = rng.below(4)
+        if place == 0:
+            member = f"  function f(x: {txt}): unit = Process.println(\"k\")\n"
+        elif place == 1:
+            member = f"  function f(): {txt} = Process.panic(\"k\")\n"
+        elif place == 2:
+            member = f"  function f(): unit = {{\n    let g = (x: {txt}) -> 1;\n    Process.println(\"k\")\n  }}\n"
+        else:
+            member = f"  function f(x: ({txt}) -> int): unit = Process.println(\"k\")\n"
+            mty = f"f({mty})i"
+        src = TYA_DECLS + "class Main {\n" + member + "  function main(): unit = Process.println(\"m\")\n}\n"
+        out.append((f"tya/place{place}/{'bad' if bad else 'ok'}: {txt}", f"tya {TYA_TABLE} {mty}", {"Main": src}, "Main", bad > 0))
+    return out
+
+
+CONF_TYPES = {"int": "i", "bool": "b", "Str": "n0,0,1()", "P": "n0,1,2()", "T": "g1;", "U": "g2;", "unit": "u"}
+CONF_BOUNDS = {"CmpA": "n0,1,8()", "CmpB": "n0,1,9()"}
+
+
+def conf_sig_text(name, pub, tps, params, ret):
+    tp = ("<" + ", ".join(n + (": " + b if b else "") for n, b in tps) + "> ") if tps else ""
+    return ("" if pub else "private ") + f"method {tp}{name}(" + ", ".join(f"x{i}: {t}" for i, t in enumerate(params)) + f"): {ret}"
+
+
+def conf_sig_model(idx, pub, tps, params, ret):
+    tpm = "".join(f"[{ {'T': 1, 'U': 2}[n] }=" + (CONF_BOUNDS[b] if b else "-") + "]" for n, b in tps)
+    return f"{idx}/{1 if pub else 0}/{tpm}/f(" + "".join(CONF_TYPES[t] for t in params) + ")" + CONF_TYPES[ret]
+
+
+def conf_cases(rng, n):
+    out = []
+    names = ["alpha", "beta", "gamma"]
+    for _ in range(n):
+        k = rng.range(1, 3)
+        expected = []
+        for i in range(k):
+            tps = rng.pick([[], [], [("T", None)], [("T", "CmpA")], [("T", None), ("U", "CmpB")]])
+            avail = ["int", "bool", "Str", "P"] + [t for t, _ in tps]
+            params = [rng.pick(avail) for _ in range(rng.below(3))]
+            expected.append([names[i], True, tps, params, rng.pick(avail + ["unit"])])
+        declared = [list(map(lambda x: list(x) if isinstance(x, list) else x, e)) for e in expected]
+        what = "ok"
+        if rng.chance(2, 3):
+            j = rng.below(len(declared))
+            d = declared[j]
+            m = rng.below(8)
+            avail = ["int", "bool", "Str", "P"] + [t for t, _ in d[2]]
+            if m == 0:
+                declared.pop(j); what = "missing"
+            elif m == 1:
+                d[4] = rng.pick([t for t in avail + ["unit"] if t != d[4]]); what = "return-type"
+            elif m == 2 and d[3]:
+                q = rng.below(len(d[3])); d[3] = list(d[3]); d[3][q] = rng.pick([t for t in avail if t != d[3][q]]); what = "param-type"
+            elif m == 3:
+                d[3] = list(d[3]) + [rng.pick(avail)]; what = "extra-param"
+            elif m == 4 and d[3]:
+                d[3] = list(d[3])[:-1]; what = "missing-param"
+            elif m == 5:
+                d[1] = False; what = "private-implementation"
+            elif m == 6 and d[2]:
+                q = rng.below(len(d[2])); tp = list(d[2]); n0, b0 = tp[q]
+                tp[q] = (n0, rng.pick([b for b in (None, "CmpA", "CmpB") if b != b0])); d[2] = tp; what = "tparam-bound"
+            elif m == 7:
+                if d[2] and rng.chance(1, 2):
+                    d[2] = list(d[2])[:-1]
+                    if any(t in ("T", "U") and t not in [x for x, _ in d[2]] for t in d[3] + [d[4]]):
+                        d[3] = [t if t in ("int", "bool", "Str", "P") or t in [x for x, _ in d[2]] else "int" for t in d[3]]
+                        d[4] = d[4] if d[4] in ("int", "bool", "Str", "P", "unit") or d[4] in [x for x, _ in d[2]] else "int"
+                    what = "tparam-count"
+                elif len(d[2]) < 2:
+                    d[2] = list(d[2]) + [("U" if d[2] else "T", None)]; what = "tparam-count"
+        extra = rng.chance(1, 3)
+        src = ("interface CmpA {\n  method ca(): int\n}\ninterface CmpB {\n  method cb(): int\n}\n"
+               "class P(val v: int) {\n  method g(): int = this.v\n}\n"
+               "interface I {\n" + "".join("  " + conf_sig_text(*e) + "\n" for e in expected) + "}\n"
+               "class C(val z: int) : I {\n" + "".join("  " + conf_sig_text(*d) + " = Process.panic(\"k\")\n" for d in declared) +
+               ("  private method own(q: bool): bool = q\n" if extra else "") + "}\n"
+               "class Main {\n  function main(): unit = Process.println(\"m\")\n}\n")
+        idx = {nm: i + 1 for i, nm in enumerate(names)}
+        line = "conf " + " ".join(conf_sig_model(idx[e[0]], *e[1:]) for e in expected) + " | " + \
+            " ".join([conf_sig_model(idx[d[0]], *d[1:]) for d in declared] + (["9/0//f(b)b"] if extra else []))
+        out.append((f"conf/{what}", line, {"Main": src}, "Main"))
+    return out
+
+
+BND_DECLS = ("interface I {\n  method mi(): int\n}\ninterface J : I {\n  method mj(): int\n}\ninterface K {\n  method mk(): int\n}\n"
+             "interface Cmp<T> {\n  method cmp(o: T): int\n}\n"
+             "class A(val v: int) : I {\n  method mi(): int = 1\n}\n"
+             "class B(val v: int) : J {\n  method mi(): int = 1\n  method mj(): int = 2\n}\n"
+             "class C(val v: int) {\n  method mi(): int = 1\n}\n"
+             "class D(val v: int) : K {\n  method mk(): int = 1\n}\n"
+             "class N(val v: int) : Cmp<N> {\n  method cmp(o: N): int = 0\n}\n"
+             "class M(val v: int) : Cmp<N> {\n  method cmp(o: N): int = 0\n}\n"
+             "class BxI<T: I>(val x: T) {\n  method k(): int = 0\n}\nclass BxJ<T: J>(val x: T) {\n  method k(): int = 0\n}\n"
+             "class BxK<T: K>(val x: T) {\n  method k(): int = 0\n}\nclass BxC<T: Cmp<T>>(val x: T) {\n  method k(): int = 0\n}\n"
+             "class G {\n  function <T: I> useI(x: T): int = 1\n  function <T: J> useJ(x: T): int = 1\n"
+             "  function <T: K> useK(x: T): int = 1\n  function <T: Cmp<T>> useC(x: T): int = 1\n}\n")
+BND_ID = {"I": "n0,1,11()", "J": "n0,1,12()", "K": "n0,1,13()", "A": "n0,1,21()", "B": "n0,1,22()", "C": "n0,1,23()",
+          "D": "n0,1,24()", "N": "n0,1,25()", "M": "n0,1,26()", "int": "i", "Str": "n0,0,1()"}
+BND_SUPERS = {"A": ["I"], "B": ["J", "I"], "C": [], "D": ["K"], "N": ["Cmp<N>"], "M": ["Cmp<N>"], "int": [], "Str": [], "I": [], "J": ["I"], "K": []}
+BND_VALUE = {"A": "A.init(1)", "B": "B.init(1)", "C": "C.init(1)", "D": "D.init(1)", "N": "N.init(1)", "M": "M.init(1)",
+             "int": "3", "Str": "\"s\""}
+
+
+def bnd_model_ty(t):
+    if t.startswith("Cmp<"):
+        return "n0,1,14(" + BND_ID[t[4:-1]] + ")"
+    return BND_ID[t]
+
+
+def bnd_cases(rng):
+    out = []
+    for bound in ("I", "J", "K", "C"):
+        for targ in ("A", "B", "C", "D", "N", "M", "int", "Str", "I", "J"):
+            for site in ("init", "call", "call-explicit", "annotation"):
+                if targ in ("I", "J"):
+                    continue          # interfaces are rejected as type arguments by a different gate (enforce_concrete_types)
+                if targ in ("int", "Str") and site == "call-explicit" and False:
+                    continue
+                b_ty = f"Cmp<{targ}>" if bound == "C" else bound
+                if bound == "C" and targ in ("I", "J", "int", "Str"):
+                    b_model = "n0,1,14(" + BND_ID[targ] + ")"
+                else:
+                    b_model = bnd_model_ty(b_ty)
+                v = BND_VALUE.get(targ)
+                if site == "init":
+                    body = f"    let z = Bx{bound}.init({v});\n    Process.println(\"k\")\n"; params = ""
+                elif site == "call":
+                    body = f"    let z = G.use{bound}({v});\n    Process.println(\"k\")\n"; params = ""
+                elif site == "call-explicit":
+                    body = f"    let z = G.use{bound}<{targ}>({v});\n    Process.println(\"k\")\n"; params = ""
+                else:
+                    body = "    Process.println(\"k\")\n"; params = f"p: Bx{bound}<{targ}>"
+                src = BND_DECLS + f"class Main {{\n  function t({params}): unit = {{\n{body}  }}\n  function main(): unit = Process.println(\"m\")\n}}\n"
+                line = f"bnd {BND_ID[targ]} {b_model} " + " ".join(bnd_model_ty(s) for s in BND_SUPERS[targ])
+                out.append((f"bnd/{site}/{targ}<:{b_ty}", line.strip(), {"Main": src}, "Main"))
+    return out
+
+
+def check_gates(ctx, rng, stats, hist):
+    """Kernels of Model/Gates.lean against the real checker on generated declarations: the model
+    predicts accept/reject, the real front end must agree; a model-rejected program must carry an
+    error in the module of the offending use and compile_sources must return Err."""
+    cases = [(l, m, p, mod, None) for l, m, p, mod in vis_cases(rng)]
+    cases += tya_cases(rng.fork(), ctx.scale(150, 3000))
+    cases += [(l, m, p, mod, None) for l, m, p, mod in conf_cases(rng.fork(), ctx.scale(200, 4000))]
+    cases += [(l, m, p, mod, None) for l, m, p, mod in bnd_cases(rng)]
+    model = run_model([c[1] for c in cases])
+    answers = eval_programs([{"sources": c[2], "entry": "Main", "std": False, "compile": True} for c in cases])
+    for (label, line, prog, module, spec_bad), m, ans in zip(cases, model, answers):
+        fam = label.split("/")[0]
+        stats["gate"] += 1
+        hist["gate:" + fam] = hist.get("gate:" + fam, 0) + 1
+        verdict = gate_verdict(ans, module)
+        if m not in ("0", "1") or (spec_bad is not None and (m == "0") != spec_bad):
+            ctx.violation("gate model answer malformed or disagrees with the generator's own bookkeeping",
+                          {"protocol": "gate", "case": label, "line": line, "model": m, "broken": "Model/Gates.lean vs vlib/c06.py"}, no_input=True)
+            continue
+        if m == "0" and verdict == "reject":
+            stats["gate_rejected"] += 1
+        elif m == "1" and verdict == "accept":
+            stats["gate_accepted"] += 1
+        elif m == "0":
+            stats["gate_slipped"] += 1
+            if stats["gate_slipped"] <= 4:
+                ctx.violation(f"static error not rejected ({label}): {verdict}; the model of the gate rejects it",
+                              {"protocol": "prog", "mutant": "gate " + label, "module": module,
+                               "program": {"sources": prog, "entry": "Main", "std": False, "compile": True},
+                               "answer": ans, "why": verdict, "model_line": line})
+        else:
+            stats["gate_overstrict"] += 1
+            if stats["gate_overstrict"] <= 3:
+                ctx.violation(f"gate correspondence broken ({label}): model accepts, front end says {verdict}",
+                              {"protocol": "prog", "mutant": "gate " + label, "module": module,
+                               "program": {"sources": prog, "entry": "Main", "std": False, "compile": True},
+                               "answer": ans, "model_line": line, "broken": "gate correspondence (accept side)"}, no_input=True)
+
+
+
 def shrink_program(prog, module, base):
     """Structural shrinking of a generated mutant: drop whole `function fK` definitions of the
     mutated module that are identical to the base program's (so the fault stays), as long as the
@@ -1120,7 +1392,7 @@ def run(ctx):
     rng = ctx.rng
     stats = {k: 0 for k in ["tok", "tok_disagree", "tok_literals", "tok_out_of_range", "tok_f1", "lit", "lit_f1",
                             "asg", "asg_disagree", "asg_accept", "asg_anyfree", "slv", "slv_accept",
-                            "join", "join_rejected", "join_accepted", "join_slipped", "join_base_rejected", "base_programs", "mutants", "mutants_rejected", "mutants_slipped", "tok_oracle_fail", "slv_disagree", "asg_spec_fail", "prog_f1", "prog_f2",
+                            "gate", "gate_rejected", "gate_accepted", "gate_slipped", "gate_overstrict", "join", "join_rejected", "join_accepted", "join_slipped", "join_base_rejected", "base_programs", "mutants", "mutants_rejected", "mutants_slipped", "tok_oracle_fail", "slv_disagree", "asg_spec_fail", "prog_f1", "prog_f2",
                             "sample_sites_total", "sample_bases_accepted"]}
     hist, errkinds, samples_out = {}, {}, []
     built = os.path.exists(common.harness_bin("C06")) and os.path.exists(common.driver_bin("C06")) and \
@@ -1148,10 +1420,11 @@ def run(ctx):
         check_lit(ctx, rng, ctx.scale(1500, 20000), stats)
         check_types(ctx, rng, ctx.scale(20000, 300000), stats)
         check_joins(ctx, rng, ctx.scale(2, 20), stats, hist)
+        check_gates(ctx, rng, stats, hist)
         check_mutants(ctx, rng, ctx.scale(1600, 12000), ctx.scale(500, 8000), stats, hist, errkinds, samples_out)
     ctx.cov.update({
-        "evaluations": stats["tok"] + stats["lit"] + stats["asg"] + stats["slv"] + stats["mutants"] + stats["join"],
-        "distinct_nontrivial": stats["tok_out_of_range"] + stats["asg_accept"] + stats["slv_accept"] + stats["mutants_rejected"] + stats["join_rejected"],
+        "evaluations": stats["tok"] + stats["lit"] + stats["asg"] + stats["slv"] + stats["mutants"] + stats["join"] + stats["gate"],
+        "distinct_nontrivial": stats["tok_out_of_range"] + stats["asg_accept"] + stats["slv_accept"] + stats["mutants_rejected"] + stats["join_rejected"] + stats["gate_rejected"],
         "rule": "evaluations = token streams + literal expressions + type pairs + constraint problems + program mutants, each run "
                 "through the real crates; non-trivial = out-of-range literals inside token streams + type pairs the kernel "
                 "accepts (consistent up to any-holes; most pairs differ in one deep position) + accepted constraint problems "
